@@ -1,3 +1,5 @@
+mod collector;
+mod evt;
 mod streams;
 
 fn main() {
